@@ -102,17 +102,9 @@ func r112(c *Ctx, r *R) {
 				r.Bad("cid:built-by", lf.Pos, "the returned pin is not PinWithOpts(cid, parsed options)")
 				continue
 			}
-			// options value: loaded from an alloc on which FromQuery was called
-			optsOK := false
-			if u, ok := call.Common().Args[1].(*ssa.UnOp); ok {
-				for _, fq := range findCalls(f, false, "api.PinOptions).FromQuery") {
-					if fq.Common().Args[0] == u.X && dominatesInstr(fq, call) {
-						if q, _ := originCall(fq.Common().Args[1]); q != nil && nameMatches(callName(q.Common()), "(*net/url.URL).Query") {
-							optsOK = true
-						}
-					}
-				}
-			}
+			// options value: what FromQuery(r.URL.Query()) filled, here or
+			// in a shared parse helper, and not written afterwards
+			optsOK := optsFromQuery(call.Common().Args[1], call, 0)
 			r.Check(optsOK, "cid:options-from-query", call.Pos(), "the pin's options are what FromQuery(r.URL.Query()) produced", "the pin's options do not come from FromQuery(r.URL.Query())")
 			cd, _ := originCall(call.Common().Args[0])
 			r.Check(cd != nil && nameMatches(callName(cd.Common()), "go-cid.Decode"), "cid:decoded", call.Pos(), "the pin's CID is the decoded path variable", "the pin's CID is not the decoded path variable")
@@ -127,15 +119,7 @@ func r112(c *Ctx, r *R) {
 				if !ok {
 					return
 				}
-				root := fa.X
-				for {
-					if in, ok := root.(*ssa.FieldAddr); ok {
-						root = in.X
-						continue
-					}
-					break
-				}
-				if root == ssa.Value(call) {
+				if rootOfFieldAddr(fa) == ssa.Value(call) {
 					stores = append(stores, fieldOfAddr(fa).Name())
 				}
 			})
@@ -153,36 +137,135 @@ func r112(c *Ctx, r *R) {
 				r.Bad("path:built-by", lf.Pos, "the returned PinPath is not a fresh object")
 				continue
 			}
-			var stores []string
+			// what the REST layer writes on the object: the path, and the
+			// options either filled in place by FromQuery or stored whole
+			// from a value FromQuery filled
+			var extra []string
 			fq := false
+			var fqAt ssa.Instruction
 			instrs(g, func(i ssa.Instruction) {
 				switch x := i.(type) {
 				case *ssa.Store:
-					if fa, ok := x.Addr.(*ssa.FieldAddr); ok {
-						root := fa.X
-						for {
-							if in, ok := root.(*ssa.FieldAddr); ok {
-								root = in.X
-								continue
-							}
-							break
-						}
-						if root == ssa.Value(al) {
-							stores = append(stores, fieldOfAddr(fa).Name())
-						}
+					fa, ok := x.Addr.(*ssa.FieldAddr)
+					if !ok || rootOfFieldAddr(fa) != ssa.Value(al) {
+						return
+					}
+					name := fieldOfAddr(fa).Name()
+					switch {
+					case fa.X == ssa.Value(al) && name == "Path":
+					case fa.X == ssa.Value(al) && name == "PinOptions" && optsFromQuery(x.Val, x, 0):
+						fq = true
+					default:
+						extra = append(extra, name)
 					}
 				case ssa.CallInstruction:
 					if nameMatches(callName(x.Common()), "api.PinOptions).FromQuery") {
-						if fa, ok := x.Common().Args[0].(*ssa.FieldAddr); ok && fa.X == ssa.Value(al) {
+						if fa, ok := x.Common().Args[0].(*ssa.FieldAddr); ok && fa.X == ssa.Value(al) && fromURLQuery(x) {
 							fq = true
+							fqAt = x
 						}
 					}
 				}
 			})
+			_ = fqAt
 			r.Check(fq, "path:options-from-query", al.Pos(), "the PinPath's options are filled by FromQuery", "the PinPath's options are not filled by FromQuery on the returned object")
-			r.Check(len(stores) == 1 && stores[0] == "Path", "path:no-overwrite", al.Pos(), "only the path itself is set by the REST layer", fmt.Sprintf("the REST layer writes %v on the PinPath besides the parsed options", stores))
+			r.Check(len(extra) == 0, "path:no-overwrite", al.Pos(), "only the path itself is set by the REST layer", fmt.Sprintf("the REST layer writes %v on the PinPath besides the parsed options", extra))
 		}
 	}
+}
+
+func rootOfFieldAddr(fa *ssa.FieldAddr) ssa.Value {
+	root := fa.X
+	for {
+		if in, ok := root.(*ssa.FieldAddr); ok {
+			root = in.X
+			continue
+		}
+		return root
+	}
+}
+
+// fromURLQuery: the FromQuery call parses r.URL.Query().
+func fromURLQuery(fq ssa.CallInstruction) bool {
+	a := fq.Common().Args
+	if len(a) < 2 {
+		return false
+	}
+	q, _ := originCall(a[1])
+	return q != nil && nameMatches(callName(q.Common()), "(*net/url.URL).Query")
+}
+
+// optsFromQuery: v (used at instruction `use`) is a PinOptions value that
+// FromQuery(r.URL.Query()) filled and nothing wrote afterwards: a load of a
+// local on which FromQuery was called, or the result of a parse helper all
+// of whose value-carrying returns are such loads (returns whose trailing
+// bool is false, or whose error is non-nil, carry no value).
+func optsFromQuery(v ssa.Value, use ssa.Instruction, depth int) bool {
+	v = stripLocal(v)
+	if u, ok := v.(*ssa.UnOp); ok && u.Op == token.MUL {
+		al, ok := u.X.(*ssa.Alloc)
+		if !ok || al.Referrers() == nil {
+			return false
+		}
+		var fq ssa.CallInstruction
+		for _, ref := range *al.Referrers() {
+			if ci, ok := ref.(ssa.CallInstruction); ok && nameMatches(callName(ci.Common()), "api.PinOptions).FromQuery") && ci.Common().Args[0] == ssa.Value(al) && fromURLQuery(ci) {
+				fq = ci
+			}
+		}
+		if fq == nil || !dominatesInstr(fq, u) {
+			return false
+		}
+		// nothing writes the local after it was parsed
+		for _, ref := range *al.Referrers() {
+			switch x := ref.(type) {
+			case *ssa.Store:
+				if x.Addr == ssa.Value(al) && !dominatesInstr(x, fq) {
+					return false
+				}
+			case *ssa.FieldAddr:
+				if x.Referrers() != nil {
+					for _, r2 := range *x.Referrers() {
+						if _, isLoad := r2.(*ssa.UnOp); !isLoad {
+							return false // a field is written or escapes
+						}
+					}
+				}
+			}
+		}
+		return true
+	}
+	call, idx := originCallLocal(v)
+	if call == nil || depth > 2 {
+		return false
+	}
+	h := call.Common().StaticCallee()
+	if h == nil || !isRepoFn(h) || len(h.Blocks) == 0 {
+		return false
+	}
+	n := 0
+	for _, b := range h.Blocks {
+		ret, ok := b.Instrs[len(b.Instrs)-1].(*ssa.Return)
+		if !ok || idx >= len(ret.Results) || b == h.Recover {
+			continue
+		}
+		last := retResult(ret, len(ret.Results)-1)
+		if len(ret.Results) > 1 {
+			if k, isK := constOf(last); isK && k != nil && k.Kind() == constant.Bool && !constant.BoolVal(k) {
+				continue // "no value"
+			}
+			if types.Identical(last.Type(), types.Universe.Lookup("error").Type()) && !isNilConst(last) {
+				continue
+			}
+		}
+		for _, leaf := range phiLeaves(retResult(ret, idx)) {
+			n++
+			if !optsFromQuery(leaf, ret, depth+1) {
+				return false
+			}
+		}
+	}
+	return n > 0
 }
 
 func r113(c *Ctx, r *R) {
@@ -489,6 +572,51 @@ func (c *Ctx) restRoutes(r *R) ([]restRoute, *packages.Package) {
 		return nil, nil
 	}
 	var out []restRoute
+	// the table, however its rows are written (positional or keyed): the
+	// string fields are name, method and pattern in declaration order, the
+	// function-typed field is the handler
+	var rets []*ast.ReturnStmt
+	ast.Inspect(fd.Body, func(n ast.Node) bool {
+		if rs, ok := n.(*ast.ReturnStmt); ok {
+			rets = append(rets, rs)
+		}
+		return true
+	})
+	if len(rets) == 1 && len(rets[0].Results) == 1 {
+		if rows, st := astTable(pkg, rets[0].Results[0], 0); len(rows) > 0 && st != nil {
+			var strs []string
+			hf := ""
+			for i := 0; i < st.NumFields(); i++ {
+				switch u := st.Field(i).Type().Underlying().(type) {
+				case *types.Basic:
+					if u.Kind() == types.String {
+						strs = append(strs, st.Field(i).Name())
+					}
+				case *types.Signature:
+					hf = st.Field(i).Name()
+				}
+			}
+			if len(strs) == 3 && hf != "" {
+				for _, row := range rows {
+					if row[strs[0]] == nil || row[strs[1]] == nil || row[strs[2]] == nil || row[hf] == nil {
+						continue
+					}
+					name, ok1 := constStr(pkg, row[strs[0]])
+					meth, ok2 := constStr(pkg, row[strs[1]])
+					pat, ok3 := constStr(pkg, row[strs[2]])
+					if !ok1 || !ok2 || !ok3 {
+						continue
+					}
+					var fn *types.Func
+					if se, ok := ast.Unparen(row[hf]).(*ast.SelectorExpr); ok {
+						fn, _ = pkg.TypesInfo.Uses[se.Sel].(*types.Func)
+					}
+					out = append(out, restRoute{name: name, method: meth, pattern: pat, handler: fn, pos: row[strs[0]].Pos(), re: muxPatternRegexp(pat)})
+				}
+				return out, pkg
+			}
+		}
+	}
 	ast.Inspect(fd.Body, func(n ast.Node) bool {
 		cl, ok := n.(*ast.CompositeLit)
 		if !ok || len(cl.Elts) != 4 {
